@@ -624,7 +624,8 @@ impl<'a> HistoryRun<'a> {
         tag: &str,
         coords: Value,
     ) -> Result<Self, String> {
-        let file_backed = prop == Prop::C18;
+        // C01 quantifies over restarts too: file-backed store, restarts at a lower rate than C18's
+        let file_backed = prop == Prop::C18 || prop == Prop::C01;
         let path = if file_backed {
             Some(scratch.join(format!("{}-a.sqlite", tag)))
         } else {
@@ -684,7 +685,11 @@ impl<'a> HistoryRun<'a> {
     pub fn gen_op(&mut self, r: &mut Rng) -> Op {
         let w = self.w;
         let roll = r.below(100);
-        let restart_weight = if self.prop == Prop::C18 { 12 } else { 0 };
+        let restart_weight = match self.prop {
+            Prop::C18 => 12,
+            Prop::C01 => 5,
+            _ => 0,
+        };
         if roll < 12 {
             // time passes: values straddling the lease lengths in play (outside the ±2 s window)
             let mut cands: Vec<i64> = vec![1, 5, 60, 149, 151, 297, 303, 450, 897, 903, 2700, 8100];
@@ -721,6 +726,14 @@ impl<'a> HistoryRun<'a> {
             named.push(Some(*a));
         }
         let ident = w.clients[client].identity();
+        // a client holding several leases names the one that is NOT the longest-lived more often
+        let mut mine: Vec<(i64, u32)> = self.held.iter().filter(|(_, h)| h.client == ident).map(|(a, h)| (h.expire, *a)).collect();
+        mine.sort();
+        if mine.len() >= 2 {
+            for _ in 0..4 {
+                named.push(Some(mine[0].1));
+            }
+        }
         for (a, h) in &self.held {
             if h.client == ident {
                 named.push(Some(*a));
